@@ -747,23 +747,22 @@ _BYTE_EDGES = (0x00, 0x01, 0x02, 0x7F, 0x80, 0xFC, 0xFD, 0xFE, 0xFF)
 
 def mutations(ch: Choices, raw: bytes, marks: list[Mark], cap: int = 48) -> list[tuple[str, bytes]]:
     """(fault kind, octets): the bounded systematic set for one object."""
-    out: list[tuple[str, bytes]] = []
+    # edits as (kind, offset, octets removed there, octets put there); a truncation removes the rest
+    edits: list[tuple[str, int, int, bytes]] = []
     cuts = sorted({c for m in marks for c in (m.off - 1, m.off, m.off + 1)} | {len(raw) - 1, 0})
-    out += [("truncate", raw[:c]) for c in cuts if 0 <= c < len(raw)]
+    edits += [("truncate", c, len(raw) - c, b"") for c in cuts if 0 <= c < len(raw)]
     for m in marks:
         if m.kind in ("count", "len"):
             v = int.from_bytes(raw[m.off + 1:m.off + m.size], "little") if m.size > 1 else raw[m.off]
-            out += [("nonminimal-" + m.kind, raw[:m.off] + compact_size(v, w) + raw[m.off + m.size:]) for w in (3, 5, 9) if w > m.size]
+            edits += [("nonminimal-" + m.kind, m.off, m.size, compact_size(v, w)) for w in (3, 5, 9) if w > m.size]
         if m.kind != "field" and m.size:
             cur = raw[m.off]
-            for v in sorted({*_BYTE_EDGES, (cur + 1) & 0xFF, (cur - 1) & 0xFF} - {cur}):
-                out.append(("edit-" + m.kind, raw[:m.off] + bytes([v]) + raw[m.off + 1:]))
-    out += [("trailing", raw + b"\x00"), ("trailing", raw + b"\xff"), ("trailing", raw + ch.nbytes(1 + ch.draw(4, "mut.ntrail"), "mut.trail"))]
-    if len(out) > cap:
-        step = -(-len(out) // cap)
-        out = out[ch.draw(step, "mut.phase")::step]
-    if raw:
-        for _ in range(3):
-            i = ch.draw(len(raw) * 8, "mut.bit")
-            out.append(("bitflip", raw[:i // 8] + bytes([raw[i // 8] ^ (1 << (i % 8))]) + raw[i // 8 + 1:]))
-    return out
+            edits += [("edit-" + m.kind, m.off, 1, bytes([v])) for v in sorted({*_BYTE_EDGES, (cur + 1) & 0xFF, (cur - 1) & 0xFF} - {cur})]
+    edits += [("trailing", len(raw), 0, t) for t in (b"\x00", b"\xff", ch.nbytes(1 + ch.draw(4, "mut.ntrail"), "mut.trail"))]
+    if len(edits) > cap:
+        step = -(-len(edits) // cap)
+        edits = edits[ch.draw(step, "mut.phase")::step]
+    for _ in range(3 if raw else 0):
+        i = ch.draw(len(raw) * 8, "mut.bit")
+        edits.append(("bitflip", i // 8, 1, bytes([raw[i // 8] ^ (1 << (i % 8))])))
+    return [(kind, raw[:off] + put + raw[off + cut:]) for kind, off, cut, put in edits]
